@@ -2,12 +2,12 @@
 from __future__ import annotations
 import os, shutil, itertools, time, csv, builtins
 import numpy as np
-import impl, aggsched
+import forms, impl, aggsched
 from impl import quiet
 from common import VERIF
 import panoptica.panoptica_aggregator as PA
 
-RULE = ("(names incl. look-alikes: byte-order mark, ideographic space, quotes, accents, trailing blanks; pool workers receiving the pickled bound method aggregator.evaluate with every subject submitted three times) (30% of the cases resume a file in which an earlier session recorded subjects, some with empty cells) the real Panoptica_Aggregator under a controlled scheduler (locks, file helpers and the evaluator call wrapped "
+RULE = ("(real threads released together on a fresh aggregator whose class groups have a slow label accessor) (a child interpreter with a non-UTF-8 locale and non-ASCII subject names) (names incl. look-alikes: byte-order mark, ideographic space, quotes, accents, trailing blanks; pool workers receiving the pickled bound method aggregator.evaluate with every subject submitted three times) (30% of the cases resume a file in which an earlier session recorded subjects, some with empty cells) the real Panoptica_Aggregator under a controlled scheduler (locks, file helpers and the evaluator call wrapped "
         "from outside; every lock/file operation is one scheduling point): random schedules of 2-4 concurrent "
         "evaluate()/make_statistic() threads with distinct and colliding subject names, compared step by step with the "
         "Lean machine (files, lock owners) and judged at the end against a sequential run; quick: 250 random schedules + "
@@ -289,6 +289,108 @@ def pool_run(ctx, n_subjects, repeat, src):
         gc.collect()
 
 
+NON_ASCII = ["M\u00fcller_01", "\u60a3\u8005_7", "caf\u00e9 2", "\u0394-9"]
+
+
+def locale_sessions(ctx, pid, src):
+    """a child interpreter whose locale encoding is not UTF-8 (LC_ALL=C, UTF-8 mode off): sessions on one output file
+    with non-ASCII subject names — first session records two subjects, second session (a new aggregator on the
+    same file) resubmits them and adds two more.  Returns (input record, child result, expected rows)"""
+    rng = ctx.rng
+    d = workdir("c16locale")
+    names = rng.sample(NON_ASCII, 2) + ["plain_3", rng.choice(NON_ASCII)]
+    names = list(dict.fromkeys(names))
+    code = {n: k + 1 for k, n in enumerate(names)}
+    j = lambda a: {"data": a.astype(int).ravel().tolist(), "dtype": str(a.dtype), "shape": list(a.shape)}
+    sub = lambda n: [n, j(subject_arrays(code[n])[0]), j(subject_arrays(code[n])[1])]
+    first = [sub(n) for n in names[:2]]
+    second = [sub(n) for n in names[:2] + names[2:] + names[:1]]
+    cfg = {"input": "MATCHED", "backend": None, "matcher": None, "eval_metrics": ["IOU", "DSC"], "decision": None, "handler": None}
+    task = {"kind": "aggregate", "path": os.path.join(d, "out.tsv"), "cfg": cfg, "global_metrics": ["DSC"], "sessions": [first, second]}
+    inp = {"mode": "child interpreter with LC_ALL=C (locale encoding not UTF-8)", "names": names, "sessions": [[n for n, _, _ in first], [n for n, _, _ in second]], "src": src}
+    try:
+        res = forms.run_child([{"kind": "info"}, task], optimize=False, extra_env=forms.C_LOCALE)
+    finally:
+        shutil.rmtree(d, ignore_errors=True)
+    ctx.case(inp, True)
+    ctx.count("non_utf8_locale_child")
+    if isinstance(res, dict) or isinstance(res[1], str):
+        ctx.notes.append("locale child could not be run: " + str(res)[:200])
+        return inp, None, None
+    out = res[1]
+    ctx.extra["locale_child_encoding"] = out.get("encoding")
+    want = {n: reference_row(n, code[n]) for n in names}
+    return inp, out, want
+
+
+def locale_case(ctx, src):
+    inp, out, want = locale_sessions(ctx, "C16", src)
+    if out is None:
+        return
+    got = sorted(r[0] for r in out["rows"][1:])
+    if out["errors"]:
+        ctx.violation(f"C16 violated under a non-UTF-8 locale: calls failed with {sorted(set(out['errors']))}; rows present: {got}", inp, impl=out["errors"],
+                      key={"kind": "locale"})
+    elif got != sorted(want):
+        ctx.violation(f"C16 violated under a non-UTF-8 locale: rows for {got}, expected exactly one per subject {sorted(want)}", inp, impl=got, key={"kind": "locale"})
+    elif any(r != want[r[0]] for r in out["rows"][1:]):
+        ctx.violation("C16 violated under a non-UTF-8 locale: a row differs from a sequential run", inp, key={"kind": "locale"})
+
+
+def slow_group_threads(ctx, n_threads, src):
+    """real threads starting together on a fresh aggregator whose evaluator has class groups built from a LabelGroup subclass
+    with a slow label accessor: whatever the library computes lazily from the groups on first use gets a wide window"""
+    import threading
+    from panoptica.utils.label_group import LabelGroup
+    from panoptica.utils.segmentation_class import SegmentationClassGroups
+
+    class SlowGroup(LabelGroup):
+        @property
+        def value_labels(self):
+            time.sleep(0.002)
+            return super().value_labels
+
+    inp = {"mode": "threads+slow-groups", "threads": n_threads, "src": src}
+    d = workdir("c16slow")
+    try:
+        impl.serial_pool(True)
+        with quiet():
+            groups = SegmentationClassGroups({"a": SlowGroup([1]), "b": SlowGroup([2]), "c": SlowGroup([3, 4])})
+            ev = impl.Panoptica_Evaluator(expected_input=impl.InputType.MATCHED_INSTANCE, instance_metrics=[impl.Metric.IOU, impl.Metric.DSC],
+                                          global_metrics=[impl.Metric.DSC], segmentation_class_groups=groups)
+            agg = PA.Panoptica_Aggregator(ev, os.path.join(d, "out.tsv"))
+        names = [f"subject_{k}" for k in range(n_threads)]
+        errs = {}
+        barrier = threading.Barrier(n_threads)
+
+        def work(k):
+            a, b = subject_arrays(k + 5)
+            a, b = a.copy(), b.copy()
+            a[a > 0] = (k % 2) + 1
+            b[b > 0] = (k % 2) + 1
+            barrier.wait()
+            try:
+                agg.evaluate(a, b, names[k])
+            except BaseException as e:      # noqa
+                errs[names[k]] = f"{type(e).__name__}: {str(e)[:80]}"
+        with quiet():
+            ts = [threading.Thread(target=work, args=(k,)) for k in range(n_threads)]
+            for t in ts:
+                t.start()
+            for t in ts:
+                t.join(120)
+        with builtins.open(os.path.join(d, "out.tsv"), newline="") as f:
+            rows = list(csv.reader(f, delimiter="\t"))
+        ctx.case(inp, True)
+        ctx.count("thread_runs_with_slow_groups")
+        got = sorted(r[0] for r in rows[1:])
+        if errs or got != sorted(names):
+            ctx.violation(f"C16 violated: concurrent evaluate() calls on a fresh aggregator with class groups: rows for {got}, expected one per subject "
+                          f"{sorted(names)}; failed calls: {errs}", inp, impl={"rows": got, "errors": errs}, key={"kind": "threads"})
+    finally:
+        shutil.rmtree(d, ignore_errors=True)
+
+
 POOL_NAMES = ["s1", "s2", "s 3", "s-4", "s1 ", " s2", "S1", "\ufeffs1", "\u00e9 1", 's"1', "s1\ufeff", "\u3000s2"]
 
 
@@ -338,6 +440,10 @@ def run(ctx):
         rand_case(ctx, "rand", i)
     for k in range(ctx.scale(1, 6)):
         pool_run(ctx, 6, 3, f"pool{k}")
+    for k in range(ctx.scale(1, 4)):
+        locale_case(ctx, f"locale{k}")
+    for k in range(ctx.scale(3, 15)):
+        slow_group_threads(ctx, 4, f"slowgroups{k}")
     for k in range(ctx.scale(3, 30)):
         fork_run(ctx, 5, ["dup", "dup", "dup", "solo_a", "solo_b"], 0.15, f"fork{k}")
 
@@ -351,6 +457,13 @@ def search(ctx):
 
 def replay(ctx, rec):
     i = rec["input"]
+    if str(i.get("mode", "")).startswith("child interpreter with LC_ALL=C"):
+        locale_case(ctx, "replay")
+        return
+    if i.get("mode") == "threads+slow-groups":
+        for k in range(5):
+            slow_group_threads(ctx, i.get("threads", 4), "replay")
+        return
     if i.get("mode") == "pool":
         pool_run(ctx, len(set(i["names"])), len(i["names"]) // len(set(i["names"])), "replay")
         return
